@@ -10,6 +10,7 @@ import Driver.Dav
 import Driver.AuthGate
 import Driver.Sync
 import Driver.Cache
+import Driver.Skeleton
 open Lean
 
 def dispatch (j : Json) : Json :=
@@ -23,6 +24,7 @@ def dispatch (j : Json) : Json :=
   | "authgate" => Driver.handleAuthGate j
   | "sync" => Driver.handleSync j
   | "cache" => Driver.handleCache j
+  | "skeleton" => Driver.handleSkeleton j
   | "ping" => Driver.obj [("r", Json.str "pong")]
   | _ => Driver.obj [("error", Json.str "bad-model")]
 
